@@ -68,7 +68,8 @@ def run(ctx):
     # ---- R1: exhaustive to a bounded number of transactions (BFS + VIEW: hist is the shortest history)
     open(os.path.join(sd, "r1.cfg"), "w").write(CFG % dict(
         full, spec="GenSpec", log="LogAppend", depth=4 if q else 5, scen="quick" if q else "thorough", rest=PROPS_R1))
-    r1 = ctx.tlc(sd, "MC_MoveBalance", "r1.cfg", timeout=2400, coverage=not q)
+    dev = bool(os.environ.get("VERIF_DEV_SKIP_R1"))     # mutation-testing aid only: skips the code-independent R1 runs
+    r1 = vlib.TlcResult() if dev else ctx.tlc(sd, "MC_MoveBalance", "r1.cfg", timeout=2400, coverage=not q)
     if not q and r1.ok and r1.coverage_zero:
         ctx.broken.append("vacuity guard: never evaluated in R1: %s" % sorted(set(r1.coverage_zero))[:10])
     exe = ctx.go_build("vh-movebalance")
